@@ -104,6 +104,8 @@ pub struct LaneStats {
   pub wall_s: f64,
   /// survey mode: signature -> (count, lowest run index)
   pub survey: BTreeMap<String, (u64, u64)>,
+  /// determinism self-test: (run index, event-log hash) of every run
+  pub run_hashes: Vec<(u64, u64)>,
   pub rule: String,
   pub components: Value,
 }
@@ -142,6 +144,8 @@ pub struct LaneCfg {
   /// registry coordinates of the lane (for worker processes)
   pub lane_index: usize,
   pub tier_quick: bool,
+  /// determinism self-test: record a hash per run
+  pub collect_hashes: bool,
 }
 
 fn scenario_size(v: &Value) -> usize {
@@ -250,6 +254,7 @@ fn merge_stats(g: &mut LaneStats, local: LaneStats) {
     *g.failures_by_kind.entry(k).or_insert(0) += v;
   }
   g.samples.extend(local.samples);
+  g.run_hashes.extend(local.run_hashes);
   for (k, v) in local.survey {
     let e = g.survey.entry(k).or_insert((0, u64::MAX));
     e.0 += v.0;
@@ -278,6 +283,7 @@ fn scan<F: Family>(fam: Arc<F>, cfg: &LaneCfg, known: &super::known::Known) -> (
     let runs = cfg.runs;
     let stop_on_first = cfg.stop_on_first;
     let survey = cfg.survey;
+    let collect_hashes = cfg.collect_hashes;
     let part = cfg.part;
     handles.push(std::thread::spawn(move || {
       use std::cell::RefCell;
@@ -316,6 +322,18 @@ fn scan<F: Family>(fam: Arc<F>, cfg: &LaneCfg, known: &super::known::Known) -> (
           if i < 3 {
             local.samples.push(json!({"run": i, "seed": seed, "scenario": serde_json::to_value(sc).unwrap_or(Value::Null),
               "steps": ev.out.stats.steps, "context_switches": ev.out.stats.switches}));
+          }
+          if collect_hashes {
+            let mut h = super::rng::fnv1a(ev.out.stats.trace_hash, ev.out.stats.steps);
+            h = super::rng::fnv1a(h, ev.out.stats.draws);
+            h = super::rng::fnv1a(h, ev.out.vtime_ns);
+            for s in &ev.states {
+              h = super::rng::fnv1a(h, *s);
+            }
+            for v in &ev.violations {
+              h = super::rng::fnv1a(h, hash_str(&signature(v)));
+            }
+            local.run_hashes.push((i, h));
           }
           if survey {
             for v in &ev.violations {
